@@ -149,28 +149,68 @@ def _mentions_pc(t):
 
 
 def _initial_state(cx, im):
+    """entry state by symbolic evaluation of the statements that precede the main loop: on every path that reaches
+    the loop, r0 and r2..r9 are 0, r10 = end of a fresh 512-byte zeroed vector, r1 = mbuff / mem / 0 by emptiness"""
     from facts import walk, strip
+    import symex
     F = cx.F
     fn = F.fns[im.fn]
-    arr = None
-    for n in walk(fn["thir"]["body"]):
-        if n.get("k") == "block":
-            for st in n["stmts"]:
-                if st["k"] == "let" and st["pat"]["k"] == "bind" and st["pat"]["ty"] == "[u64; 11]" and st.get("init"):
-                    arr = strip(st["init"])
-    if not arr or arr.get("k") != "array" or len(arr["es"]) != 11:
+    top = strip(fn["thir"]["body"])
+    if top.get("k") != "block":
+        return False, "body is not a block"
+    at = [i for i, st in enumerate(top["stmts"]) if any(x is im.lm.match.node for x in walk(st))]
+    upto = at[0] if at else len(top["stmts"])
+    regid = [st_["pat"]["id"] for n in walk(top) if n.get("k") == "block" for st_ in n["stmts"]
+             if st_["k"] == "let" and st_["pat"].get("k") == "bind" and st_["pat"]["ty"] == "[u64; 11]"]
+    if len(regid) != 1:
         return False, "register initialiser not found"
-    import symex
     ev = symex.Evaluator(F)
-    vals = [ev.ev(e, symex.St(), im.fn)[0][0] for e in arr["es"]]
-    vals = [im.canon(v) for v in vals]
-    stack = ("obj", "STACK", "core::vec::Vec<u8>")
-    zeros = all(v == T.K(64, 0) for v in vals[:10])
-    top = vals[10]
-    ok_top = isinstance(top, tuple) and top[0] == "op" and top[1] == "add" and "as_ptr" in repr(top) and "len" in repr(top) and "STACK" in repr(top)
-    # r1 cascade: `if !mbuff.is_empty() { reg[1] = mbuff.as_ptr() } else if !mem.is_empty() { reg[1] = mem.as_ptr() }`
-    casc = [n for n in walk(fn["thir"]["body"]) if n.get("k") == "if" and "is_empty" in repr(n["c"])[:4000]]
-    txt = repr(casc[0])[:6000] if casc else ""
-    ok_casc = bool(casc) and txt.find(im.param_role.get("MBUFF", "?")) != -1 and txt.find(im.param_role.get("MBUFF", "?")) < txt.find(im.param_role.get("MEM", "?"), txt.find("is_empty"))
-    stk = any(n.get("k") == "call" and (n.get("callee") or {}).get("path", "").endswith("from_elem") for n in walk(fn["thir"]["body"]))
-    return zeros and ok_top and ok_casc and stk, {"zeros": zeros, "r10": T.show(top) if isinstance(top, tuple) else top, "cascade": ok_casc, "stack_vec": stk}
+    owner = ev.owner_of(im.fn)
+    st = symex.St()
+    for q in fn["thir"]["params"]:
+        if q["pat"] and q["pat"].get("k") == "bind":
+            st = st.set((owner, q["pat"]["id"]), ev.sym_for(q["pat"]["name"], q["ty"]))
+    acc = [st]
+    for stmt in top["stmts"][:upto]:
+        fake = {"k": "block", "stmts": [stmt], "tail": None, "ty": "()"}
+        nxt = []
+        for s_ in acc:
+            if s_.exit is not None:
+                nxt.append(s_)
+                continue
+            nxt.extend(s2 for _, s2 in ev.ev(fake, s_, im.fn))
+        acc = [s_ for s_ in nxt if s_.feasible]
+    live = [s_ for s_ in acc if s_.exit is None]
+    if not live or any(s_.unrec for s_ in live):
+        return False, "prologue not evaluable: %s" % [u for s_ in live for u in s_.unrec][:2]
+    MB, ME = im.param_role.get("MBUFF"), im.param_role.get("MEM")
+    mb, me = ("obj", MB, "&[u8]"), ("obj", ME, "&[u8]")
+    e_mb = T.cmp("eq", 64, ("call", "len", (mb,), 64), T.K(64, 0))
+    e_me = T.cmp("eq", 64, ("call", "len", (me,), 64), T.K(64, 0))
+    want_r1 = {(T.lnot(e_mb),): ("call", "as_ptr", (mb,), 64), (e_mb, T.lnot(e_me)): ("call", "as_ptr", (me,), 64), (e_mb, e_me): T.K(64, 0)}
+    seen, probs, r10s = set(), [], set()
+    for s_ in live:
+        val = s_.env.get((owner, regid[0]))
+        regs = [ev.index_of(val, T.K(64, k), "u64") for k in range(11)]
+        if any(regs[k] != T.K(64, 0) for k in (0, 2, 3, 4, 5, 6, 7, 8, 9)):
+            probs.append("a register other than r1 / r10 does not start at 0")
+        key = tuple(c for c in s_.conds if c in (e_mb, e_me, T.lnot(e_mb), T.lnot(e_me)))
+        if key not in want_r1 or regs[1] != want_r1[key]:
+            probs.append("r1 = %s under %s" % (_tshow(regs[1]), [_tshow(c) for c in key]))
+        seen.add(key)
+        top10 = regs[10]
+        vecs = [e for e in s_.effects if e[0] == "call" and isinstance(e[1], str) and e[1].endswith("vec::from_elem") and e[2] == (T.K(8, 0), T.K(64, 512))]
+        ok10 = any(top10 == T.op("add", 64, ("call", "as_ptr", (e[3],), 64), ("call", "len", (e[3],), 64)) for e in vecs)
+        if not ok10:
+            probs.append("r10 = %s (want the end of a fresh vec![0u8; 512])" % _tshow(top10))
+        r10s.add(_tshow(top10))
+    if seen != set(want_r1):
+        probs.append("r1 cases: %d of 3" % len(seen))
+    return not probs, sorted(set(probs)) or {"zeros": True, "r10": sorted(r10s)[0], "r1": "mbuff if non-empty, else mem if non-empty, else 0"}
+
+
+def _tshow(t):
+    try:
+        return T.show(t)
+    except Exception:
+        return repr(t)[:80]
